@@ -1,5 +1,6 @@
 # mypy: disable-error-code="dict-item"
 import collections
+import collections.abc
 import concurrent.futures
 import queue
 import re
@@ -13,6 +14,7 @@ _AnyStrT = TypeVar("_AnyStrT", str, bytes)
 _T1 = TypeVar("_T1")
 _T2 = TypeVar("_T2")
 _T1_co = TypeVar("_T1_co", covariant=True)
+_T2_co = TypeVar("_T2_co", covariant=True)
 _AnyStr_co = TypeVar("_AnyStr_co", str, bytes, covariant=True)
 
 BUILTIN_ORIGIN_TO_TYPEVARS: Mapping[type, VarTuple[TypeVar]] = {
@@ -26,6 +28,17 @@ BUILTIN_ORIGIN_TO_TYPEVARS: Mapping[type, VarTuple[TypeVar]] = {
     collections.Counter: (_T1,),
     collections.deque: (_T1,),
     dict: (_T1, _T2),
+    collections.abc.Iterable: (_T1_co, ),
+    collections.abc.Iterator: (_T1_co, ),
+    collections.abc.Reversible: (_T1_co, ),
+    collections.abc.Container: (_T1_co, ),
+    collections.abc.Collection: (_T1_co, ),
+    collections.abc.Sequence: (_T1_co, ),
+    collections.abc.MutableSequence: (_T1, ),
+    collections.abc.Set: (_T1_co, ),
+    collections.abc.MutableSet: (_T1, ),
+    collections.abc.Mapping: (_T1, _T2_co),
+    collections.abc.MutableMapping: (_T1, _T2),
     collections.defaultdict: (_T1, _T2),
     collections.OrderedDict: (_T1, _T2),
     collections.ChainMap: (_T1, _T2),
